@@ -818,6 +818,27 @@ def os_thread_state(t):
         return None
 
 
+import re
+
+_BLOCKING_LINE = re.compile(r"\b(wait|acquire|sleep|recv|recv_into|select|poll|join|get|read|accept|_wait_for_tstate_lock)\s*\(")
+_NEVER_A_SPIN = ("logging", "traceback", "linecache", "tokenize", "tb_strings", "_log", "importlib")
+
+
+def at_blocking_primitive(stack):
+    """The innermost Python frame sits on a source line that calls a blocking primitive
+    (Condition/Event.wait, Lock.acquire, time.sleep, recv/select, join, queue get)."""
+    if not stack:
+        return False
+    import linecache
+
+    fn, q, ln = stack[-1]
+    return bool(_BLOCKING_LINE.search(linecache.getline(fn, ln or 0)))
+
+
+def never_a_spin(stack):
+    return any(any(tok in fn or tok in q for tok in _NEVER_A_SPIN) for fn, q, _ in (stack or ()))
+
+
 def observe(w, callers, window, deadline, extra_threads=()):
     """Sample until everything is over, or until the DESIGN 2.4 quiescence
     holds for `window` seconds.
@@ -875,23 +896,31 @@ def observe(w, callers, window, deadline, extra_threads=()):
             st = os_thread_state(t)
             if st is None:
                 continue
-            o = osinfo.setdefault(t.name, dict(cpu0=st[1], cpu=st[1], n=0, asleep=0))
+            o = osinfo.setdefault(t.name, dict(cpu0=st[1], cpu=st[1], n=0, asleep=0, atprim=0, nospin=0))
             o["cpu"] = st[1]
             o["n"] += 1
             o["asleep"] += 1 if st[0] == "S" else 0
+            tstack = stack_of(t.ident, frames)
+            o["atprim"] += 1 if at_blocking_primitive(tstack) else 0
+            o["nospin"] += 1 if never_a_spin(tstack) else 0
         span = now - run_start
         # (undelivered bytes do not break quiescence: the hard key already demands that not a byte was sent or
         # delivered during the whole run, so whoever should read them is one of the parked threads)
         if span >= window and run_samples >= 8:
-            asleep = all(o["asleep"] >= 0.9 * o["n"] and o["cpu"] - o["cpu0"] <= max(0.1, 0.05 * span)
+            # parked = asleep for the OS, no CPU used, and the innermost frame on a blocking primitive
+            asleep = all(o["asleep"] >= 0.9 * o["n"] and o["atprim"] >= 0.9 * o["n"]
+                         and o["cpu"] - o["cpu0"] <= max(0.1, 0.05 * span)
                          for o in osinfo.values()) and len(osinfo) == len(live)
             top = max(n for n, _ in states.values())
             parked = asleep and top >= 0.9 * run_samples
-            recurring = (not asleep and span >= 2 * window and run_samples >= 16 and len(full_states) <= 6
-                         and all(n >= 2 for n in full_states.values()))
+            # a busy loop: the same few full stacks revisited again and again for three windows with the
+            # byte counters frozen; logging / traceback / linecache work is never a spin
+            recurring = (not asleep and span >= 3 * window and run_samples >= 40 and len(full_states) <= 6
+                         and all(n >= 3 for n in full_states.values())
+                         and all(o["nospin"] == 0 for o in osinfo.values()))
             if parked or recurring:
                 info = dict(samples=run_samples, span=round(span, 2), distinct_stack_states=len(full_states),
-                            threads={k: dict(asleep="%d/%d" % (o["asleep"], o["n"]), cpu=round(o["cpu"] - o["cpu0"], 2))
+                            threads={k: dict(asleep="%d/%d" % (o["asleep"], o["n"]), at_blocking_primitive="%d/%d" % (o["atprim"], o["n"]), cpu=round(o["cpu"] - o["cpu0"], 2))
                                      for k, o in osinfo.items()})
                 last = max(states.values(), key=lambda x: x[0])[1]
                 if recurring:
@@ -906,7 +935,7 @@ def observe(w, callers, window, deadline, extra_threads=()):
                 return ("blocked" if parked else "spinning"), info, last
         if now >= t_end:
             return "unsettled", dict(samples=run_samples, span=round(span, 2), distinct_stack_states=len(full_states),
-                                     threads={k: dict(asleep="%d/%d" % (o["asleep"], o["n"]), cpu=round(o["cpu"] - o["cpu0"], 2))
+                                     threads={k: dict(asleep="%d/%d" % (o["asleep"], o["n"]), at_blocking_primitive="%d/%d" % (o["atprim"], o["n"]), cpu=round(o["cpu"] - o["cpu0"], 2))
                                               for k, o in osinfo.items()}), last
         time.sleep(0.25)
 
@@ -1080,7 +1109,7 @@ def run_case(a):
         apply_pre(w)
         w.wait_quiet(10)
         injector.start()
-        verdict, info, last = observe(w, [], window, 4 * window + 25, extra_threads=[injector])
+        verdict, info, last = observe(w, [], window, 5 * window + 40, extra_threads=[injector])
         if verdict != "ok":
             res.update(verdict=verdict, window=info, call_made=False, active=last["active"], drained=last["drained"],
                        vthread=describe(last["vstack"]) if last["vstack"] else None,
@@ -1104,7 +1133,7 @@ def run_case(a):
         wait_inactive(1.0)
     w.stall.go.set()
     phases["lost"] = round(time.monotonic() - t_begin, 2)
-    verdict, info, last = observe(w, callers, window + tmo, 4 * window + 25 + tmo, extra_threads=[injector])
+    verdict, info, last = observe(w, callers, window + tmo, 5 * window + 40 + tmo, extra_threads=[injector])
     res.update(
         verdict=verdict,
         window=info,
